@@ -75,6 +75,7 @@ type Conn struct {
 
 	// 单向连接 输入/输出 （加密/解密）
 	in, out   halfConn
+	workKeyMu sync.Mutex   // 保护 workKey：Close 可能与正在进行的握手并发
 	workKey   []byte       // TLCP工作密钥，用于在断开连接时对密钥置零
 	rawInput  bytes.Buffer // 原始输入数据，以记录层(record)的头开始
 	input     bytes.Reader // application data waiting to be read, from rawInput.Next
@@ -1149,8 +1150,7 @@ func (c *Conn) Close() error {
 		}
 	}
 	// 对工作密钥置零
-	setZero(c.workKey)
-	c.workKey = nil
+	c.setWorkKey(nil)
 
 	if err := c.conn.Close(); err != nil {
 		return err
@@ -1159,6 +1159,15 @@ func (c *Conn) Close() error {
 }
 
 var errEarlyCloseWrite = errors.New("tlcp: CloseWrite called before handshake complete")
+
+// setWorkKey 将原工作密钥置零并记录新的工作密钥。
+// 握手（持有 handshakeMutex）与 Close（不能等待 handshakeMutex）可能并发，因此使用独立的锁。
+func (c *Conn) setWorkKey(key []byte) {
+	c.workKeyMu.Lock()
+	defer c.workKeyMu.Unlock()
+	setZero(c.workKey)
+	c.workKey = key
+}
 
 // CloseWrite shuts down the writing side of the connection. It should only be
 // called once the handshake has completed and does not call CloseWrite on the
